@@ -483,3 +483,33 @@ def language_xpath_backrefs(ctx):
             q.unknown += 1
     q.samples.extend(backref_family()[:6])
     return q.result(cex[:10], detail=dict(programs=sum(counts.values()), outcomes=counts))
+
+
+# --- added after round-2 seeded changes: translations must not depend on what was translated before (shared cached subsets) ---------
+
+POLLUTERS = ['[\\S-[a7]]', '[\\D-[5x]]', '[\\W-[_q]]', '[\\I-[q:]]', '[\\C-[q.]]', '[^\\s-[ ]]', '[\\P{L}-[1]]', '[\\S\\d-[7]]']
+
+
+@ob(engine='z3', budget=120, bound='all subject strings; after a history of translations of classes built from negated escapes with subtraction, every single-atom pattern x quantifier of the family still has the reference language',
+    funcs=['elementpath/regex/character_classes.py:CharacterClass.add/__isub__ (cached subsets)', R + ':translate_pattern'])
+def language_after_history(ctx):
+    q = Queries(timeout_s=20, diff_binary=False)
+    cex = []
+    counts = {}
+    for p in POLLUTERS:
+        for v in ('1.0', '1.1'):
+            try:
+                translate_pattern(p, xsd_version=v, back_references=False, lazy_quantifiers=False, anchors=False)
+                translate_pattern(p, xsd_version=v)
+            except RegexError:
+                pass
+    for a in ATOMS:
+        for qf in ('', '+'):
+            p = a + qf
+            if _is_known(p):
+                continue
+            r = _decide(p, '1.0', False, q, cex, 'after-history P=%r' % p)
+            counts[r] = counts.get(r, 0) + 1
+    q.samples.extend(POLLUTERS[:4])
+    res = q.result(cex[:10], detail=dict(programs=sum(counts.values()), outcomes=counts))
+    return res
